@@ -53,6 +53,16 @@ SHAPES = {
     "spaces": lambda n: " " * n + "1",
     "arrow": lambda n: "1 " + "-> m " * n,
     "quote": lambda n: "'" * n,
+    # nesting that is not written with parentheses or a plain run of signs
+    "minus-comment": lambda n: "-/**/" * n + "1",
+    "minus-space": lambda n: "- " * n + "1",
+    "ln": lambda n: "ln " * n + "2",
+    "of-short": lambda n: "x of " * n + "water",
+    "pow-neg": lambda n: "2" + "^-2" * n,
+    "pow-paren-free-call": lambda n: "sqrt " * n + "2",
+    "signs-mixed": lambda n: "-+" * (n // 2) + "1",
+    "to-base": lambda n: "1 -> " + "base " * n + "2",
+    "degree": lambda n: "1 " + "°C " * n,
 }
 
 
@@ -63,7 +73,7 @@ def stack_probes(c):
     os.makedirs(d, exist_ok=True)
     probes = []
     for name, f in SHAPES.items():
-        for n in (100, 200, 300, 400, 499):
+        for n in (60, 99, 100, 127, 128, 129, 160, 200, 300, 400, 499):
             q = f(n)
             if len(q) <= 500:
                 probes.append(("%s:%d" % (name, n), q))
